@@ -42,6 +42,43 @@ type Case struct {
 	Spec    *tprog.FileSpec `json:"spec,omitempty"`
 	Lines   []vh.SyslogLine `json:"lines"`
 	Workers int             `json:"workers"` // >1: concurrent variant, goroutines with private parsers sharing one allocator
+	Long    *LongSpec       `json:"long,omitempty"`
+}
+
+// LongSpec turns Lines into a pool: the stream is N records, each a pool line with its own valid timestamp (date, 0-9
+// fraction digits, numeric zone in colon or compact form or Z), chosen by a fixed generator from Seed. Long-lived state
+// that only goes wrong after many records (caches keyed by record contents) needs streams of this length.
+type LongSpec struct {
+	N       int    `json:"n"`
+	Seed    uint64 `json:"seed"`
+	LowPool bool   `json:"lowPool"` // pooling threshold (a defs variable) lowered to 64 bytes: short records use recycled buffers too
+}
+
+func expandLong(c Case) [][]byte {
+	x := c.Long.Seed | 1
+	next := func(n int) int {
+		x = x*6364136223846793005 + 1442695040888963407
+		return int((x >> 33) % uint64(n))
+	}
+	out := make([][]byte, 0, c.Long.N)
+	for k := 0; k < c.Long.N; k++ {
+		l := c.Lines[next(len(c.Lines))]
+		frac := ""
+		if nd := next(10); nd > 0 {
+			frac = "." + "123456789"[:nd]
+		}
+		zone := "Z"
+		switch next(8) {
+		case 0:
+		case 1, 2:
+			zone = fmt.Sprintf("%c%02d%s", "+-"[next(2)], next(15), []string{"00", "30", "45"}[next(3)])
+		default:
+			zone = fmt.Sprintf("%c%02d:%s", "+-"[next(2)], next(15), []string{"00", "30", "45"}[next(3)])
+		}
+		l.Time = []byte(fmt.Sprintf("20%02d-%02d-%02dT%02d:%02d:%02d%s%s", next(40), 1+next(12), 1+next(28), next(24), next(60), next(60), frac, zone))
+		out = append(out, l.Bytes())
+	}
+	return out
 }
 
 type loaded struct {
@@ -105,6 +142,16 @@ func run1(c Case) vh.Result {
 	inputs := make([][]byte, len(c.Lines))
 	for i, l := range c.Lines {
 		inputs[i] = l.Bytes()
+	}
+	if c.Long != nil {
+		inputs = expandLong(c)
+		res.Classes = append(res.Classes, "long-stream-with-varied-timestamps")
+		if c.Long.LowPool {
+			oldPool := defs.InputLogMinRecordBytesToPool
+			defs.InputLogMinRecordBytesToPool = 64
+			defer func() { defs.InputLogMinRecordBytesToPool = oldPool }()
+			res.Classes = append(res.Classes, "pooling-threshold-lowered")
+		}
 	}
 	// reference: every record on fresh instances
 	want := make([]outcome, len(inputs))
@@ -238,6 +285,29 @@ func gen(t *rapid.T) Case {
 		c.Workers = rapid.IntRange(2, 6).Draw(t, "workers")
 	}
 	return c
+}
+
+func genLong(t *rapid.T) Case {
+	var c Case
+	c.Sample = rapid.IntRange(0, 2).Draw(t, "sample") > 0
+	if !c.Sample {
+		s := tprog.GenFileSpec(t, false)
+		c.Spec = &s
+	}
+	n := rapid.IntRange(2, 8).Draw(t, "npool")
+	for i := 0; i < n; i++ {
+		c.Lines = append(c.Lines, vh.GenRealisticLine(t, 3000))
+	}
+	c.Workers = 1
+	c.Long = &LongSpec{N: rapid.IntRange(200, 1500).Draw(t, "n"), Seed: rapid.Uint64().Draw(t, "seed"), LowPool: rapid.Bool().Draw(t, "lowPool")}
+	return c
+}
+
+func TestC12LongStreams(t *testing.T) {
+	vh.Run(t, vh.Spec[Case]{
+		Name: "long-streams", Gen: genLong, Run: run1, Quick: 25, Thorough: 400, ShrinkSeconds: 30,
+		Rule: "streams of 200-1500 records drawn from a pool of 2-8 generated lines, each with its own valid timestamp (all dates, 0-9 fraction digits, zones +-hh:00/30/45 in colon and compact form, Z), on one long-lived pipeline versus each record alone on a fresh one; in half of the cases the pooling threshold (defs variable) is lowered to 64 bytes so that short records use recycled backing buffers as records over 1024 bytes do; oracle and non-triviality as in the isolation check",
+	})
 }
 
 func TestC12Isolation(t *testing.T) {
